@@ -2,7 +2,7 @@
 # run_seeds.sh: re-run every seeded change against the check of its property (regression suite for the checks themselves)
 cd "$(dirname "$0")/.." || exit 2
 for d in seeded/*/; do
-  n=$(basename $d); p=$(python3 -c "import json; print(json.load(open('$d/meta.json'))['property'])")
+  n=$(basename $d); if grep -q '"retired"' $d/meta.json 2>/dev/null; then echo "RETIRED $n"; continue; fi; p=$(python3 -c "import json; print(json.load(open('$d/meta.json'))['property'])")
   r=$(python3 tools/try_seed.py $d $p 2>&1 | grep "^check" | sed 's/KNOWN-FINDING[^|]*| //g' | cut -c1-220)
   case "$r" in *"exit=1"*) s=CAUGHT;; *) s=MISSED;; esac
   case "$r" in *"no-failing-input-found"*) s=UNSHOWN;; esac
